@@ -4,7 +4,7 @@
 for D in "$@"; do
   D=$(realpath $D)
   name=$(basename $D); WT=/tmp/seedtests_$name
-  git -C /repo worktree add -q --detach $WT HEAD || continue
+  git -C /repo worktree add -q --detach $WT ${SEED_BASE:-HEAD} || continue
   if git -C $WT apply $D/patch.diff; then
     (cd $WT && NUMBA_NUM_THREADS=4 timeout 3000 /venv/bin/python -m pytest -q -p no:cacheprovider --timeout=900 --continue-on-collection-errors umap/tests > /tmp/seedtests_$name.log 2>&1)
     tail -3 /tmp/seedtests_$name.log | grep -E "passed|failed" > /tmp/seedtests_$name.sum
